@@ -322,8 +322,25 @@ class Interp:
                 raise PyRaise("AssertionError", st)
             return
         if isinstance(st, (ast.With, ast.AsyncWith)):
-            # context managers used in analysed code are locks: body runs once
-            self.exec_block(st.body, env)
+            # context managers used in analysed code are locks: body runs once.  A model lock (an Obj carrying Native
+            # __enter__/__exit__, handed in by a model) is entered and released, so a model can act at the release point
+            mgrs = []
+            for item in st.items:
+                if isinstance(item.context_expr, (ast.Name, ast.Attribute)):
+                    try:
+                        v = self.eval(item.context_expr, env)
+                    except (Undecided, PyRaise):
+                        continue
+                    if isinstance(v, Obj) and isinstance(v.attrs.get("__exit__"), Native):
+                        mgrs.append(v)
+            for m_ in mgrs:
+                if isinstance(m_.attrs.get("__enter__"), Native):
+                    m_.attrs["__enter__"]([], {})
+            try:
+                self.exec_block(st.body, env)
+            finally:
+                for m_ in reversed(mgrs):
+                    m_.attrs["__exit__"]([None, None, None], {})
             return
         if isinstance(st, ast.While):
             n = 0
@@ -373,20 +390,25 @@ class Interp:
             raise _Continue()
         if isinstance(st, ast.Try):
             try:
-                self.exec_block(st.body, env)
-            except PyRaise as e:
-                for h in st.handlers:
-                    tn = ast.unparse(h.type) if h.type is not None else ""
-                    if h.type is None or tn in ("Exception", "BaseException") or tn.split(".")[-1] in e.what:
-                        if h.name:
-                            env[h.name] = Opaque("exc")
-                        self.exec_block(h.body, env)
-                        break
+                try:
+                    self.exec_block(st.body, env)
+                except PyRaise as e:
+                    for h in st.handlers:
+                        tn = ast.unparse(h.type) if h.type is not None else ""
+                        if h.type is None or tn in ("Exception", "BaseException") or tn.split(".")[-1] in e.what:
+                            if h.name:
+                                env[h.name] = Opaque("exc")
+                            self.exec_block(h.body, env)
+                            break
+                    else:
+                        raise
                 else:
-                    self.exec_block(st.finalbody, env)
-                    raise
-            else:
-                self.exec_block(st.orelse, env)
+                    self.exec_block(st.orelse, env)
+            except (PyRaise, _Return, _Break, _Continue):
+                # leaving the statement by raise / return / break / continue (from the body, a handler or the else
+                # clause) still runs the finally clause
+                self.exec_block(st.finalbody, env)
+                raise
             self.exec_block(st.finalbody, env)
             return
         if isinstance(st, ast.Global):
@@ -420,6 +442,9 @@ class Interp:
         if isinstance(target, ast.Attribute):
             base = self.eval(target.value, env)
             if isinstance(base, Obj):
+                hook = base.attrs.get("__setattr_hook__")
+                if hook is not None:
+                    hook([target.attr, val], {})  # model objects that record plain attribute stores
                 base.attrs[target.attr] = val
                 return
             raise Undecided(f"attribute store on {base!r}")
@@ -549,8 +574,13 @@ class Interp:
                     return self.eval(k.consts[attr], {"__class__": k, "__mod__": k.mod, "__classbody__": k})
                 if attr in k.methods:
                     return BoundMethod(None, k.methods[attr])
+                if attr in getattr(k, "inner", {}):
+                    return ClassRef(k.inner[attr])
             raise Undecided(f"{base.cls.name}.{attr}")
         if isinstance(base, ModuleRef):
+            if base.name == "re" and attr in ("DOTALL", "IGNORECASE", "MULTILINE", "VERBOSE", "ASCII", "S", "I", "M", "X", "A"):
+                import re as _re
+                return int(getattr(_re, attr))
             return Builtin(f"{base.name}.{attr}")
         if isinstance(base, Builtin) and base.name in ("dict", "str", "bytes", "int", "list", "tuple", "set", "frozenset", "float"):
             import builtins as _b
@@ -973,6 +1003,11 @@ class PyMethod:
                 for x in args[0]:
                     out = out + SymBytes.of(x)
                 return out
+        if type(self.base).__name__ == "Pattern" and args and hasattr(args[0], "cells"):
+            from .symregex import sym_match
+            if args[0].concrete() is None:
+                return sym_match(self.base, self.attr, args[0])
+            args = (args[0].concrete(),) + tuple(args[1:])
         for a in args:
             if isinstance(a, Opaque):
                 return Opaque(f"{self.attr}()")
@@ -1124,6 +1159,15 @@ class Builtin:
             return [v for v in list(args[1]) if interp.truth(v if args[0] is None else interp.apply(args[0], [v], {}, node))]
         if n == "print":
             return None
+        if n in ("re.search", "re.match", "re.fullmatch") and len(args) >= 2 and hasattr(args[1], "cells") and isinstance(args[0], (str, bytes)):
+            import re as _re
+            from .symregex import sym_match
+            fl = args[2] if len(args) > 2 else kwargs.get("flags", 0)
+            if not isinstance(fl, int):
+                raise Undecided(f"{n} flags")
+            if args[1].concrete() is None:
+                return sym_match(_re.compile(args[0], fl), n[3:], args[1])
+            args = [args[0], args[1].concrete()] + list(args[2:])
         if n in ("re.compile", "re.search", "re.match", "re.fullmatch", "re.findall", "re.sub", "re.split", "re.escape"):
             if any(not isinstance(a, (str, bytes, int)) for a in args) or any(not isinstance(a, (str, bytes, int)) for a in kwargs.values()):
                 raise Undecided(f"{n} on non-constant arguments")
